@@ -3,6 +3,7 @@ from vf.propdefs import COMMON_TRUST
 PROP = dict(
     level="proof",
     units=["validate"],
+    aux_units=["evmwire"],
     level_text="Env::validate_block_env, Env::validate_tx, Env::validate_tx_against_state, Env::effective_gas_price, "
                "Env::calc_data_fee, Env::calc_max_data_fee, TxEnv::get_total_blob_gas, BlockEnv::get_blob_gasprice, the four "
                "CfgEnv::is_*_disabled accessors (crates/primitives/src/env.rs), AuthorizationList::len / is_empty "
@@ -44,9 +45,8 @@ PROP = dict(
                "only Ok/Err is proved there (the error kinds are proved on the callees). Handler-level "
                "validate_tx_against_state (loads the caller through the journal, then calls Env::validate_tx_against_state): "
                "see units/fees (C09) / journal (C06). 'REJECTION HAS NO EFFECT': proved here = the validation functions only "
-               "read (Env is passed by shared reference; the one &mut Account is proved unchanged); TRUSTED WIRING = that "
-               "Evm::transact calls handler.post_execution().clear on the error path (a 3-line closure over dyn handlers in "
-               "crates/revm/src/evm.rs) and that clear() resets journal and error (units journal / fees); multi-transaction "
+               "read (Env is passed by shared reference; the one &mut Account is proved unchanged); "
+               "WIRING now PROVED (aux unit evmwire, crates/revm/src/evm.rs verbatim on the real Evm/Handler/Context): Evm::clear runs the handler's post_execution().clear on the context, and Evm::preverify_transaction, Evm::transact_preverified and Evm::transact reach EVERY exit (Ok and Err, incl. the `?` exits on a validation / initial-gas error) with `clear` as the last thing done to the context (evm_fresh(final context)); the inner functions preverify_transaction_inner / transact_preverified_inner and the `end` handle are given NO contract (arbitrary result and state). STILL TRUSTED: the handler table holds the mainnet functions (PostExecutionHandler::clear dispatches a Box<dyn Fn> -- assumed to establish evm_fresh; mainnet::clear's effect is proved in unit fees on journal's JournaledState::clear); the order of calls INSIDE transact_preverified_inner; two recorded substitutions in evmwire: closure parameter `|_|` named, and `.inspect_err(|_e| self.clear())` (closure capturing &mut self: outside Verus) replaced by its defunctionalised form `if res.is_err() { self.clear() }; res`, whose body is verified. That clear() resets journal and error: units journal / fees; multi-transaction "
                "histories on one Evm instance are not decided. CFG FEATURES: the default feature set has every optional_* "
                "feature OFF; the extractor does not evaluate cfg attributes, the unit selects the `#[cfg(not(feature = ..))]` "
                "alternative of each CfgEnv::is_*_disabled accessor by ordinal (`#1`), keeps the attribute (rustc evaluates it: "
